@@ -66,8 +66,10 @@ def specVal : Bytes → Int → M GoVal := fun p oid =>
   else if oid = 602 ∨ oid = 604 then pure (.str [])     -- (only used with payloads that are no path at all)
   else pure (.str (Model.LocalDec.safeString p))    -- text-like and unknown types: the text, sanitised
 
+/-- the expected row as canonical text: the (name, value) pairs of `Spec.rowView` as an object (generated column names are
+distinct, so no map-building rule is involved; canonical text sorts by key) -/
 def specRow (cols : List Spec.Col) (r : Spec.RowV) : String :=
-  showM (fun ps => showRow (Model.toRow ps)) (Spec.rowView specVal cols r)
+  showM (fun ps => showRow ps) (Spec.rowView specVal cols r)
 
 def dec := Model.LocalDec.dec
 
@@ -146,7 +148,12 @@ def fixedRowsAlign0 : List (List Spec.Col × Spec.RowV) :=
     ([⟨strBytes "f", 16, 1, 1⟩, ⟨strBytes "r", 3926, -1, 8⟩, ⟨strBytes "n", 23, 4, 4⟩],
       row [some (.fixed [1]), some (.external (List.replicate 16 9)), some (.fixed (le 4 777))] 3),
     ([⟨strBytes "f", 21, 2, 2⟩, ⟨strBytes "r", 1016, -1, 8⟩, ⟨strBytes "n", 23, 4, 4⟩],
-      row [some (.fixed [1, 0]), none, some (.fixed (le 4 777))] 3) ]
+      row [some (.fixed [1, 0]), none, some (.fixed (le 4 777))] 3),
+    -- fixes/rows/08: (int4, txid_snapshot, int4) and (int4, tsmultirange[], int4): the 4-byte header is 'd' aligned
+    ([⟨strBytes "a", 23, 4, 4⟩, ⟨strBytes "s", 2970, -1, 8⟩, ⟨strBytes "n", 23, 4, 4⟩],
+      row [some (.fixed (le 4 1)), some (.long [97, 98, 99]), some (.fixed (le 4 777))] 3),
+    ([⟨strBytes "a", 23, 4, 4⟩, ⟨strBytes "m", 6152, -1, 8⟩, ⟨strBytes "n", 23, 4, 4⟩],
+      row [some (.fixed (le 4 1)), some (.long [97]), some (.fixed (le 4 777))] 3) ]
 
 def rowdecGen (seed idx size : Nat) : Case :=
   let (cols, mcols, r) : List Spec.Col × List Model.Column × Spec.RowV :=
@@ -217,6 +224,30 @@ def rowexhEval (args : List String) : String :=
 
 def rowexh : Family := { name := "rowexh", gen := rowexhGen, eval := rowexhEval, fixed := (exhTotal + exhBatch - 1) / exhBatch }
 
+/-- rowexh4: the WHOLE 4-column level of the exhaustive enumeration — 28⁴ schemas/rows × 12 variants (leading spacer of
+0..7 bytes with all attributes stored, or natts 0..3) = 7 375 872 rows in batches of 64, enumerated through a
+multiplicative permutation so that any prefix (the quick tier) is a spread sample; `rowexh` has the 1–3 column levels
+completely and the natts = 4 / no-spacer slice of this one -/
+def exh4Total : Nat := Gen.exhCount 4
+
+def exh4Item (g : Nat) : Option (String × String × String) :=
+  if g < exh4Total then
+    let code := (g * 1000003) % exh4Total      -- 1000003 is prime, exh4Total = 2¹⁰·3·7⁴
+    let (cols, r) := Gen.exhRow 4 code
+    let mcols := Gen.plainModelCols cols
+    let t := scanned (Spec.formTuple cols r)
+    some (s!"{showCols mcols}|{showBitmap t.bitmap}|{hexRle t.data}",
+          showM showRowOpt (Model.decodeTuple dec t mcols), specRow cols r)
+  else none
+
+def rowexh4Gen (_seed idx _size : Nat) : Case :=
+  let items := (List.range exhBatch).filterMap fun k => exh4Item (idx * exhBatch + k)
+  { tags := [if items.isEmpty then "empty" else "nt"],
+    model := joinWith ";" (items.map (·.2.1)), spec := joinWith ";" (items.map (·.2.2)),
+    args := [if items.isEmpty then "-" else joinWith ";" (items.map (·.1))] }
+
+def rowexh4 : Family := { name := "rowexh4", gen := rowexh4Gen, eval := rowexhEval, fixed := (exh4Total + exhBatch - 1) / exhBatch }
+
 /-! ### varlena -/
 
 def showVarlena (r : Option Bytes × Nat) : String :=
@@ -254,44 +285,47 @@ def rowfileEval (args : List String) : String :=
   | [cols, vis, file] => showM showRows (Model.readRows dec (unhex file) (parseCols cols) (vis == "1"))
   | _ => "bad-args"
 
-/-- t_infomask2 carries the attribute count in its low 11 bits only; the high bits are flags PostgreSQL sets on
-ordinary rows (0x2000 HEAP_KEYS_UPDATED: row locked FOR UPDATE / key-changing update or delete in flight or rolled back,
-0x4000 HEAP_HOT_UPDATED, 0x8000 HEAP_ONLY_TUPLE).  `formTuple` leaves them clear; the file families set them on two
-tuples out of three (a function of the slot position and the case index), which changes nothing in the Spec view. -/
-def withIm2Flags (salt : Nat) (blocks : List Spec.Block) : List Spec.Block :=
-  blocks.zipIdx.map fun (b, bi) =>
-    match b with
-    | .zero => .zero
-    | .page p =>
-      .page { p with slots := p.slots.zipIdx.map fun ((junk, t), si) =>
-        let k := (salt + 7 * bi + 3 * si) % 12
-        let hi := (if k % 3 == 0 then 0 else (if k % 2 == 0 then 0x2000 else 0) + (if k % 4 < 2 then 0x4000 else 0) + (if k ≥ 6 then 0x8000 else 0))
-        (junk, { t with infomask2 := t.infomask2 % 2048 + hi }) }
-
-def genFile (seed idx size : Nat) : List Spec.Col × List Model.Column × List Spec.Block × List (Nat × Spec.RowV) :=
+/-- a heap file of row versions, generated at the Spec level: every version has its own header fields (`Spec.HdrFields`:
+xmin / xmax / cid / t_ctid and the HEAP_KEYS_UPDATED / HOT_UPDATED / ONLY_TUPLE / unused bits of t_infomask2) and
+t_infomask; the file may end in a partial block -/
+def genFile (seed idx size : Nat) :
+    List Spec.Col × List Model.Column × List Spec.Block × Bytes × List (Spec.RowVer × Nat) :=
   (do let cols ← Gen.genSchema size
       let mcols ← Gen.toModelCols cols
-      let (blocks, vers) ← Gen.genRowHeap cols size
-      return (cols, mcols, withIm2Flags idx blocks, vers)).run' (Prng.ofSeed seed idx)
+      let (blocks, tail, vers) ← Gen.genRowHeapH cols size
+      return (cols, mcols, blocks, tail, vers)).run' (Prng.ofSeed seed idx)
+
+/-- the stored tuples of a file in scan order with the byte offset of their page (= `Proofs.Rows.fileEntries`) -/
+def fileEntriesD (bs : List Spec.Block) : List (Spec.Tuple × Nat) :=
+  (bs.zipIdx.map fun (b, i) => b.tuples.map fun t => (t, 8192 * i)).flatten
+
+/-- hypotheses of C03_file / C09_deleted_file / C09_withDeleted_file on a generated file -/
+def fileHyp (cols : List Spec.Col) (mcols : List Model.Column) (blocks : List Spec.Block) (tail : Bytes)
+    (vers : List (Spec.RowVer × Nat)) : Bool :=
+  blocksWF blocks && tail.length < 8192 && colsMatchB 0 mcols cols && !mcols.isEmpty &&
+  vers.all (fun v => decide (v.1.1.WF) && decide (v.1.2.WF cols)) &&
+  decide (fileEntriesD blocks = vers.map fun v => (Spec.formVer cols v.1, v.2))
+
+def hdrTags (vers : List (Spec.RowVer × Nat)) : List String :=
+  (if vers.any (fun v => v.1.1.flags2 != 0) then ["has:im2flags"] else []) ++
+  (if vers.any (fun v => v.1.1.xmax != 0) then ["has:xmax"] else [])
 
 def rowfileGen (seed idx size : Nat) : Case :=
-  let (cols, mcols, blocks, vers) := genFile seed idx size
+  let (cols, mcols, blocks, tail, vers) := genFile seed idx size
   let vis := idx % 2 == 1
-  let file := Spec.encHeap blocks []
-  let want := vers.filter fun v => !vis || Spec.liveBits (Spec.formTuple cols v.2).infomask
-  -- hypotheses of C03_file
-  let hyp := blocksWF blocks && colsMatchB 0 mcols cols && !mcols.isEmpty && vers.all (fun v => decide (v.2.WF cols)) &&
-    decide (((blocks.flatMap Spec.Block.tuples).map fun t => { t with infomask2 := t.infomask2 % 2048 }) = vers.map fun v => Spec.formTuple cols v.2)
+  let file := Spec.encHeap blocks tail
+  let want := vers.filter fun v => !vis || Spec.liveBits v.1.2.infomask
   { tags := [s!"pages={blocks.length}", (if want.length == 0 then "rows=0" else if want.length < 10 then "rows<10" else "rows>=10"),
-             hypTag hyp] ++ (if want.isEmpty then [] else ["nt"]),
+             (if tail.isEmpty then "tail=0" else "tail=partial"), hypTag (fileHyp cols mcols blocks tail vers)] ++ hdrTags vers ++
+            (if want.isEmpty then [] else ["nt"]),
     model := showM showRows (Model.readRows dec file mcols vis),
-    spec := joinWith ";" (want.map fun v => specRow cols v.2),
+    spec := joinWith ";" (want.map fun v => specRow cols v.1.2),
     args := [showCols mcols, b2s vis, hexRle file] }
 
 def rowfile : Family := { name := "rowfile", gen := rowfileGen, eval := rowfileEval }
 
 def showDeleted (ds : List Model.DeletedRow) : String :=
-  joinWith ";" (ds.map fun d => s!"{d.pageOffset}/0/{d.rawSize}/{showRowOpt d.data}")
+  joinWith ";" (ds.map fun d => s!"{d.pageOffset}/{d.rawSize}/{showRowOpt d.data}")
 
 def viewsModel (mcols : List Model.Column) (file : Bytes) : String :=
   "all=" ++ showM showRows (Model.readRows dec file mcols false) ++
@@ -306,17 +340,19 @@ def rowviewsEval (args : List String) : String :=
   | _ => "bad-args"
 
 def rowviewsGen (seed idx size : Nat) : Case :=
-  let (cols, mcols, blocks, vers) := genFile seed idx size
-  let file := Spec.encHeap blocks []
-  let mask (v : Nat × Spec.RowV) := (Spec.formTuple cols v.2).infomask
-  let live := vers.filter fun v => Spec.liveBits (mask v)
-  let del := vers.filter fun v => Spec.deletedBits (mask v)
-  let rows (vs : List (Nat × Spec.RowV)) := joinWith ";" (vs.map fun v => specRow cols v.2)
+  let (cols, mcols, blocks, tail, vers) := genFile seed idx size
+  let file := Spec.encHeap blocks tail
+  -- the Spec side: the classes are decided by the t_infomask each stored version carries (C09_deleted_file,
+  -- C09_withDeleted_file), the row by its attribute values (C03), page offset and data length by the layout
+  let live := vers.filter fun v => Spec.liveBits v.1.2.infomask
+  let del := vers.filter fun v => Spec.deletedBits v.1.2.infomask
+  let rows (vs : List (Spec.RowVer × Nat)) := joinWith ";" (vs.map fun v => specRow cols v.1.2)
   let spec := "all=" ++ rows vers ++ "|live=" ++ rows live ++
-    "|del=" ++ joinWith ";" (del.map fun v => s!"{v.1}/0/{(Spec.formTuple cols v.2).data.length}/{specRow cols v.2}") ++
+    "|del=" ++ joinWith ";" (del.map fun v => s!"{v.2}/{v.1.2.dataLen cols}/{specRow cols v.1.2}") ++
     "|wv=" ++ rows live ++ "|wd=" ++ rows del
   { tags := [s!"pages={blocks.length}", (if live.isEmpty then "live=0" else "live>0"), (if del.isEmpty then "del=0" else "del>0"),
-             (if vers.length > live.length + del.length then "other>0" else "other=0")] ++ (if vers.isEmpty then [] else ["nt"]),
+             (if vers.length > live.length + del.length then "other>0" else "other=0"),
+             hypTag (fileHyp cols mcols blocks tail vers)] ++ hdrTags vers ++ (if vers.isEmpty then [] else ["nt"]),
     model := viewsModel mcols file, spec, args := [showCols mcols, hexRle file] }
 
 def rowviews : Family := { name := "rowviews", gen := rowviewsGen, eval := rowviewsEval }
@@ -336,7 +372,7 @@ def rowmasksGen (_seed idx _size : Nat) : Case :=
   let live := masks.filter Spec.liveBits
   let del := masks.filter Spec.deletedBits
   let spec := "all=" ++ rows masks ++ "|live=" ++ rows live ++
-    "|del=" ++ joinWith ";" (del.map fun m => s!"0/0/2/{val m}") ++ "|wv=" ++ rows live ++ "|wd=" ++ rows del
+    "|del=" ++ joinWith ";" (del.map fun m => s!"0/2/{val m}") ++ "|wv=" ++ rows live ++ "|wd=" ++ rows del
   { tags := ["nt"], model := viewsModel mcols file, spec, args := [showCols mcols, hexRle file] }
 
 def rowmasks : Family := { name := "rowmasks", gen := rowmasksGen, eval := rowviewsEval, fixed := 256 }
@@ -352,32 +388,40 @@ def authidEval (args : List String) : String :=
   | _ => "bad-args"
 
 def authidGen (seed idx size : Nat) : Case :=
-  let (blocks, vers) : List Spec.Block × List (Spec.Role × Nat) :=
+  let (blocks, tail, vers) : List Spec.Block × Bytes × List (Spec.HdrFields × Spec.Role × Nat) :=
     (do let n ← match idx with
           | 0 => pure 0
           | 1 => pure 1
           | 2 => pure 128
+          | 3 => pure 500
           | _ => match ← Gen.below 4 with
             | 0 => Gen.range 0 3
             | 1 => Gen.range 100 (100 + 50 * size)
             | _ => Gen.range 1 (10 + 10 * size)
-        Gen.genAuthFile (min n 500)).run' (Prng.ofSeed seed idx)
-  let file := Spec.encHeap blocks []
-  let spec := joinWith ";" (vers.map fun (r, _) =>
+        Gen.genAuthFileH (min n 500)).run' (Prng.ofSeed seed idx)
+  let file := Spec.encHeap blocks tail
+  let spec := joinWith ";" (vers.map fun (_, r, _) =>
     let v := Spec.roleView r
     s!"{v.oid}:{hexOf v.name}:{hexOf v.password}:{b2s v.super}{b2s v.canlogin}")
-  let nopw := vers.any fun (r, _) => r.password.isNone
-  let long := vers.any fun (r, _) => match r.password with | some p => p.length > 126 | none => false
-  let dead := vers.any fun (_, m) => !Spec.liveBits m
+  let nopw := vers.any fun (_, r, _) => r.password.isNone
+  let long := vers.any fun (_, r, _) => match r.password with | some p => p.length > 126 | none => false
+  let dead := vers.any fun (_, _, m) => !Spec.liveBits m
+  let updated := vers.any fun (h, _, _) => h.xmax != 0 && h.flags2 != 0
+  let otherLP := blocks.any fun b => match b with
+    | .page p => p.lps.any fun l => match l with | .other .. => true | .normal _ => false
+    | .zero => false
   -- hypotheses of C14_roles
-  let hyp := blocksWF blocks && vers.all (fun (r, m) => decide r.WF && m < 65536) &&
-    decide ((blocks.flatMap Spec.Block.tuples) = vers.map fun (r, m) => Spec.encRole r m)
+  let hyp := blocksWF blocks && tail.length < 8192 && vers.all (fun (h, r, m) => decide h.WF && decide r.WF && m < 65536) &&
+    decide ((blocks.flatMap Spec.Block.tuples) = vers.map fun (h, r, m) => Spec.encRoleH h r m)
   { tags := [s!"pages={blocks.length}", (if vers.length < 10 then "roles<10" else if vers.length < 100 then "roles<100" else "roles>=100")] ++
-            (if nopw then ["has:nopw"] else []) ++ (if long then ["has:longpw"] else []) ++ (if dead then ["has:dead"] else []) ++ [hypTag hyp] ++
+            (if nopw then ["has:nopw"] else []) ++ (if long then ["has:longpw"] else []) ++ (if dead then ["has:dead"] else []) ++
+            (if updated then ["has:updated"] else []) ++ (if otherLP then ["has:otherlp"] else []) ++
+            (if blocks.any (fun b => match b with | .zero => true | _ => false) then ["has:zeroblock"] else []) ++
+            (if tail.isEmpty then [] else ["has:tail"]) ++ (if vers.length ≥ 500 then ["roles>=500"] else []) ++ [hypTag hyp] ++
             (if vers.isEmpty then [] else ["nt"]),
     model := showM showAuth (Model.parsePGAuthID file), spec, args := [hexRle file] }
 
-def authid : Family := { name := "authid", gen := authidGen, eval := authidEval, fixed := 3 }
+def authid : Family := { name := "authid", gen := authidGen, eval := authidEval, fixed := 4 }
 
 /-! ### C10: hostile schemas, corrupted tuples and files -/
 
